@@ -270,12 +270,18 @@ def run(pid, tier):
         util.write(p, emit.Emitter(case, "nr", r2).spec().encode("latin1"))
         specs.append((p, "generated:%d%s" % (i, ":large" if i % 3 == 0 else "")))
     jobs = []
+    ngs = 0
     for idx, (p, name) in enumerate(specs):
         r3 = chk.rng("opts", idx)
         rest = OPTSETS[1:]
         osets = [OPTSETS[0]] + [rest[(idx * (nopt - 1) + j) % len(rest)] for j in range(nopt - 1)]
         if "large" in name:
             osets = [OPTSETS[0], OPTSETS[3], OPTSETS[8]]
+        elif name.startswith("generated:"):
+            # generated specifications are always accepted: between them they cover every
+            # option set whatever the seed picked from the corpus
+            osets = [OPTSETS[0]] + [rest[(ngs * 3 + j) % len(rest)] for j in range(3)]
+            ngs += 1
         jobs.append((chk, flexes, so, idx, p, name, osets, tier))
     for o in util.pmap(spec_worker, jobs):
         chk.count(o["runs"])
